@@ -178,5 +178,6 @@ def tree_interp(repo, d: int = 3, pss_sign: int = 1, r: int = 0, cls: str = "Mul
     attrs = {"d": d, "r": r, "pss": T.var("pss", cls), "blades": blades, "signs": Obj("dict", getitem=signs_getitem)}
     attrs.update(extra_attrs or {})
     it = make_interp(repo, attrs, {"__len__": lambda: 2 ** d},
-                     opaque_calls=("grade", "filter", "map", "items", "keys", "values", "grades"))
+                     opaque_calls=("grade", "filter", "map", "items", "keys", "values", "grades", "type_number", "free_symbols",
+                                   "issymbolic", "shape"))
     return it
